@@ -512,7 +512,7 @@ func genRequest(rt *rapid.T, c *genCtx) lreq {
 		sb.WriteString("<CompleteMultipartUpload>")
 		n := rapid.IntRange(0, 3).Draw(rt, "nparts")
 		for i := 0; i < n; i++ {
-			pn := c.intVal(rt, []string{"1", "2", "3"})
+			pn := c.intVal(rt, []string{"1", "2", "3", "4", "5", "10000", "10001"})
 			et := `"` + strings.Repeat("0", 32) + `"`
 			for _, u := range c.Uploads {
 				if u.ID == id {
